@@ -15,7 +15,7 @@ from .. import build, core, logdir
 
 LEVEL = "fault_enumeration"
 
-CFGS = ["oneline", "fluent", "fluentrot", "nested", "nestedcat", "ini", "nestedfirst", "badfirst"]
+CFGS = ["oneline", "fluent", "fluentrot", "nested", "nestedcat", "ini", "nestedfirst", "badfirst", "lateappend", "wide3", "wide17", "wide40"]
 NS = [0, 1, 3, 100, 2000, 50000]
 SIZES = [5, 200, 20000]
 ID_RE = re.compile(rb"id=(\d+);")
@@ -75,7 +75,7 @@ def run_case(ctx, exe, case, idx):
             break
     res = {"rc": rc, "err": err[-600:], "files": {}}
     if rc == -6:
-        for fname in ("app.log", "warn.log"):
+        for fname in ("app.log", "warn.log", "late.log"):
             if os.path.exists(os.path.join(logd, fname)) or any(n.startswith(fname.split(".")[0] + ".") for n in os.listdir(logd)):
                 data, bad = logdir.read_all(logd, fname)
                 res["files"][fname] = (data, bad)
@@ -100,13 +100,15 @@ def judge(ctx, case, res):
 def judge_run(ctx, case, res, base, last, runs):
     cfg, n, size = case["cfg"], case["n"], case["size"]
     T = case["nthreads"] + 1
-    rotating = cfg != "fluent" and (case["L"] > 0 or case["opts"] & 3 or cfg in ("fluentrot", "nested", "nestedcat", "ini", "nestedfirst", "badfirst"))
+    rotating = cfg != "fluent" and (case["L"] > 0 or case["opts"] & 3 or cfg in ("fluentrot", "nested", "nestedcat", "ini", "nestedfirst", "badfirst", "lateappend") or cfg.startswith("wide"))
     retention = rotating and case["N"] >= 2
     expect = {}
     allids = list(range(n + 1))
-    if cfg in ("nested", "nestedfirst"):
+    if cfg in ("nested", "nestedfirst", "lateappend") or cfg.startswith("wide"):
         expect["app.log"] = allids
         expect["warn.log"] = [i for i in range(n) if i % 3 == 1] + [n]
+        if cfg == "lateappend":
+            expect["late.log"] = allids
     elif cfg == "nestedcat":
         expect["app.log"] = list(range(n))           # refuses the fatal's category, predecessors still qualify
         expect["warn.log"] = [i for i in range(n) if i % 3 == 1] + [n]
